@@ -310,55 +310,57 @@ pub fn check_zarr<St: zarrs::storage::ReadableStorageTraits + ?Sized + 'static>(
                 }
                 let n_rows = shape[1] as usize;
                 let row_of_array = |c: usize, k: usize| cell.rows(c * n_rows + k, c * n_rows + k + 1, wd);
+                if let Some(dim) = ev {
+                    // Row k of every field of an event dimension belongs to the k-th event of that dimension in the
+                    // chain (an event = a record on which any field of the dimension has a value); a field without a
+                    // value on that event holds a placeholder, which is not judged.
+                    let dim_of = |n: &str| vars.iter().find(|v| v.0 == n).and_then(|v| v.3.as_deref());
+                    let mut dim_events = 0usize;
+                    for c in 0..nc {
+                        let mut k = 0usize;
+                        for r in reference.kept(c, Some(warm)) {
+                            if !r.stats.iter().any(|(n, v)| v.is_some() && dim_of(n) == Some(dim.as_str())) {
+                                continue;
+                            }
+                            let want = r.stats.iter().find(|(n, _)| n == name).and_then(|(_, v)| v.as_ref()).map(cell_of);
+                            if k >= n_rows {
+                                return Err((
+                                    "C14:zarr:event-array-too-short".into(),
+                                    format!("{path}: chain {c} recorded more than {k} events of dimension {dim} but the array has only {n_rows} rows"),
+                                ));
+                            }
+                            if let Some(want) = want {
+                                let got = row_of_array(c, k);
+                                if got != want {
+                                    return Err(mismatch("C14:zarr:event-value", &path, c, format!("event {k} of dimension {dim}: read {got:?}, recorded {want:?}")));
+                                }
+                            }
+                            k += 1;
+                        }
+                        dim_events = dim_events.max(k);
+                    }
+                    if finalized && n_rows != dim_events {
+                        return Err(("C14:zarr:event-array-length".into(), format!("{path}: {n_rows} rows after finalisation, dimension {dim} had {dim_events} events")));
+                    }
+                    continue;
+                }
                 for c in 0..nc {
                     // the buffer of a name receives every entry of that name, in order
                     let flat: Vec<Option<Cell>> = reference.col_by_name(c, is_stat, name, Some(warm)).into_iter().flatten().collect();
                     let dup = vars.iter().filter(|v| &v.0 == name).count() > 1;
-                    if ev.is_some() {
-                        let present: Vec<&Cell> = flat.iter().filter_map(|v| v.as_ref()).collect();
-                        if present.len() > n_rows {
-                            return Err((
-                                "C14:zarr:event-array-too-short".into(),
-                                format!("{path}: chain {c} recorded {} events but the array has only {n_rows} rows", present.len()),
-                            ));
-                        }
-                        for (k, want) in present.iter().enumerate() {
-                            let got = row_of_array(c, k);
-                            if &got != *want {
-                                return Err(mismatch("C14:zarr:event-value", &path, c, format!("event {k}: read {got:?}, recorded {want:?}")));
-                            }
-                        }
-                    } else {
-                        let declared = if warm { if reference.store_warmup { reference.num_tune } else { 0 } } else { reference.num_draws } as usize;
-                        if n_rows != declared {
-                            return Err(("C14:zarr:shape".into(), format!("{path}: {n_rows} rows, declared {declared}")));
-                        }
-                        if flat.len() > n_rows && !dup {
-                            return Err(("C14:harness".into(), format!("{path}: {} rows recorded into {n_rows} declared rows", flat.len())));
-                        }
-                        for (k, want) in flat.iter().enumerate().take(n_rows) {
-                            let Some(want) = want else { continue };
-                            let got = row_of_array(c, k);
-                            if &got != want {
-                                return Err(mismatch("C14:zarr:value", &path, c, format!("row {k}: read {got:?}, recorded {want:?}")));
-                            }
-                        }
+                    let declared = if warm { if reference.store_warmup { reference.num_tune } else { 0 } } else { reference.num_draws } as usize;
+                    if n_rows != declared {
+                        return Err(("C14:zarr:shape".into(), format!("{path}: {n_rows} rows, declared {declared}")));
                     }
-                }
-                if let (Some(dim), true) = (ev, finalized) {
-                    // all arrays of an event dimension share its length: the number of events of the dimension,
-                    // i.e. the largest number of values any of its fields recorded in a chain (this phase)
-                    let mut dim_events = 0usize;
-                    for (other, _, _, oev) in &vars {
-                        if oev.as_ref() == Some(dim) {
-                            for c in 0..nc {
-                                let k = reference.col_by_name(c, is_stat, other, Some(warm)).into_iter().flatten().filter(|v| v.is_some()).count();
-                                dim_events = dim_events.max(k);
-                            }
-                        }
+                    if flat.len() > n_rows && !dup {
+                        return Err(("C14:harness".into(), format!("{path}: {} rows recorded into {n_rows} declared rows", flat.len())));
                     }
-                    if n_rows != dim_events {
-                        return Err(("C14:zarr:event-array-length".into(), format!("{path}: {n_rows} rows after finalisation, dimension {dim} had {dim_events} events")));
+                    for (k, want) in flat.iter().enumerate().take(n_rows) {
+                        let Some(want) = want else { continue };
+                        let got = row_of_array(c, k);
+                        if &got != want {
+                            return Err(mismatch("C14:zarr:value", &path, c, format!("row {k}: read {got:?}, recorded {want:?}")));
+                        }
                     }
                 }
             }
@@ -1007,6 +1009,8 @@ pub fn check_e2e(c: &E2eCase) -> Outcome {
     any.set_num_chains(c.num_chains);
     let opts = BackendOpts { backend: c.backend, chunk: c.chunk, store_warmup, precision: c.precision, delay_seed: c.delay_seed, workers: 2 };
     let mut stats = (0usize, 0usize, 0usize, false);
+    let mut unequal = false;
+    let mut unequal_names: Vec<String> = vec![];
     let r: Result<(), Fail> = with_settings!(&any, s => {
         let math = CpuMath::new(crate::tools::density::LogDensity::new(c.dens.clone()));
         let sch = schema_of(s, &math);
@@ -1025,6 +1029,16 @@ pub fn check_e2e(c: &E2eCase) -> Outcome {
         );
         let events = |name: &str| recorded.iter().flatten().filter(|r| r.stats.iter().any(|(n, v)| n == name && v.is_some())).count();
         stats = (recorded.iter().map(|r| r.len()).sum(), events("divergence_draw"), events("transformation_update_id"), recorded.iter().any(|r| r.iter().any(|x| !x.tuning)));
+        // do fields of one event dimension carry different numbers of values (packed Zarr rows cannot be aligned then)?
+        for (name, _, _, ev) in &sch.stats {
+            let Some(dim) = ev else { continue };
+            let id_field = if dim == "divergence" { "divergence_draw" } else { "transformation_update_id" };
+            let k = events(name);
+            if k > 0 && k != events(id_field) {
+                unequal = true;
+                unequal_names.push(name.clone());
+            }
+        }
         res
     });
     if let Err((sig, msg)) = r {
@@ -1037,6 +1051,10 @@ pub fn check_e2e(c: &E2eCase) -> Outcome {
     }
     let (rows, div, upd, sampled) = stats;
     o.label_if(div > 0, "has-divergence");
+    o.label_if(unequal, "event-field-on-some-events-only");
+    for n in &unequal_names {
+        o.label(format!("partial-field:{n}"));
+    }
     o.label_if(upd > 0, "has-transformation-update");
     o.label_if(c.abort_after.is_some() && rows < c.num_chains * (c.spec.num_tune + c.spec.num_draws) as usize, "aborted-early");
     o.label_if(!store_warmup, "store_warmup=false");
@@ -1115,7 +1133,7 @@ impl Part for EndToEnd {
 
 fn run(ctx: &mut Ctx) {
     ctx.assume("each backend is held to what its format can express: HashMap, ndarray and Zarr encode the draw / chain statistics as array position; CSV holds the seven CmdStan statistics and the numeric draw variables, to its printed precision");
-    ctx.assume("Zarr stores each field of an event dimension packed (the k-th row of a field is its k-th recorded value); the check follows that layout");
+    ctx.assume("an event of an event dimension is a record on which any field of that dimension has a value; Zarr row k of every field of the dimension belongs to event k, rows of fields without a value on that event are placeholders and are not judged");
     ctx.run_part(&Direct);
     ctx.run_part(&EndToEnd);
 }
